@@ -679,7 +679,12 @@ func ruleP12Print(p *Prog, r *Report) {
 				return
 			}
 			fa, ok := st.Addr.(*ssa.FieldAddr)
-			if !ok || typeNameOf(fa.X.Type()) != "Prefix" || fieldName(fa) != "d" {
+			// (the prefix struct: whatever it is called, the duration goes into its field of type
+			// klog.Duration)
+			if !ok || typeNameOf(fa.Type()) != "Duration" || !p.inModType(fa.X.Type()) {
+				return
+			}
+			if _, isStruct := derefType(fa.X.Type()).Underlying().(*types.Struct); !isStruct {
 				return
 			}
 			v := st.Val
